@@ -101,6 +101,38 @@ def eligible(prog, f, c, keep, max_blocks, stack, allow_pub=False):
     return g
 
 
+
+def _fold_constant_switches(raw):
+    """`if cfg!(feature = "x") || cond` leaves a switch on a local that is assigned a constant exactly once: only one arm is
+    feasible, and keeping the other hides which tests really guard the code behind it"""
+    defs = {}
+    for b in raw["blocks"]:
+        for s in b["s"]:
+            if s["k"] == "assign" and "p" not in s["place"]:
+                defs.setdefault(s["place"]["l"], []).append(s["rv"])
+        t = b["t"]
+        if t["k"] == "call" and t.get("dest") is not None and "p" not in t["dest"]:
+            defs.setdefault(t["dest"]["l"], []).append({"k": "call"})
+    for b in raw["blocks"]:
+        t = b["t"]
+        if t["k"] != "switch":
+            continue
+        d = t["discr"]
+        val = None
+        if "c" in d and "int" in d["c"]:
+            val = str(d["c"]["int"])
+        else:
+            p = d.get("mv") or d.get("cp")
+            if p is not None and "p" not in p and p["l"] > raw["argc"]:
+                ds = defs.get(p["l"], [])
+                if len(ds) == 1 and ds[0]["k"] == "use" and "c" in ds[0]["op"] and "int" in ds[0]["op"]["c"]:
+                    val = str(ds[0]["op"]["c"]["int"])
+        if val is None:
+            continue
+        listed = {v: x for v, x in t["arms"]}
+        b["t"] = {"k": "goto", "t": listed.get(val, t["otherwise"])}
+
+
 def view(prog, f, keep=None, depth=2, max_blocks=40, _stack=None, allow_pub=False):
     """f with its eligible callees inlined (a new Fn; f itself is returned when nothing was inlined)"""
     cache = prog.__dict__.setdefault("_inline_cache", {})
@@ -151,6 +183,7 @@ def view(prog, f, keep=None, depth=2, max_blocks=40, _stack=None, allow_pub=Fals
     if raw is None:
         res = f
     else:
+        _fold_constant_switches(raw)
         res = Fn(prog, raw, f.crate)
         res.key = getattr(f, "key", f.path)
         res.inlined = inlined + [p for p in getattr(f, "inlined", [])]
